@@ -423,7 +423,11 @@ int fstat64(int fd, struct stat64 *st) {
 }
 int fstat(int fd, struct stat *st) { return fstat64(fd, (struct stat64 *)st); }
 
-int statx(int dirfd, const char *path, int flags, unsigned int mask, struct statx *stx) {
+int statx(int dirfd, const char *path_arg, int flags, unsigned int mask, struct statx *stx) {
+    /* std probes for statx with statx(0, NULL, 0, mask, NULL); glibc declares the argument nonnull,
+     * so read it through a volatile copy or the compiler deletes the NULL checks below */
+    const char *volatile path_v = path_arg;
+    const char *path = path_v;
     const char *rel = NULL;
     if (path && path[0] == 0 && (flags & AT_EMPTY_PATH)) { if (is_tracked(dirfd)) rel = g_paths[dirfd]; }
     else if (dirfd == AT_FDCWD || (path && path[0] == '/')) rel = sandbox_rel(path);
